@@ -6,10 +6,14 @@ from gcverif.renames import binding_sequence, qualnames, binding_skeletons
 from gcverif.shapes import describe
 out = {}
 files = subprocess.run("git -C /repo ls-files 'gemclus/*.py' 'gemclus/**/*.py'", shell=True, capture_output=True, text=True).stdout.split()
+files += ["gemclus/tree/_utils.pyx"]
 for rel in files:
     if "/tests/" in rel:
         continue
     src = subprocess.run(["git", "-C", "/repo", "show", f"HEAD:{rel}"], capture_output=True, text=True).stdout
+    if rel.endswith(".pyx"):
+        from gcverif.pyxdesugar import desugar
+        src = desugar(src)[0]
     try:
         tree = ast.parse(src)
     except SyntaxError:
